@@ -773,7 +773,7 @@ class ComputeGraph(MultiDiGraph):
         )
 
         # assemble actual argument values
-        fargs = [0.0, state_vec.copy()]
+        fargs = [0.0 if dt_adapt else 0, state_vec.copy()]     # (fixed-step solvers: t is the integer step counter)
         if is_dde and code_gen.add_hist_arg:
             fargs.append(code_gen.get_hist_func(state_vec.copy()))
         for a in all_arg_names:
@@ -1124,6 +1124,14 @@ class ComputeGraph(MultiDiGraph):
             ph = sp.Symbol(f'_ppl{i}_')
             subs[psym] = ph
             ph_to_code[str(ph)] = code_str
+
+        # index helpers (`index(v, i)` on a vector constant, the per-step access to an extrinsic input under a fixed-step
+        # solver) are no callables of the generated module: print them as backend indexing, like the vector field does
+        for i, fn in enumerate(sorted(expr.atoms(sp.Function), key=str)):
+            if fn.func.__name__ == 'index_1d' and len(fn.args) == 2 and fn.args[0].is_Symbol:
+                ph = sp.Symbol(f'_ipl{i}_')
+                subs[fn] = ph
+                ph_to_code[str(ph)] = f"{fn.args[0]}{self._get_var_idx(idx=(fn.args[1],), args=[])}"
 
         expr_subst = expr.subs(subs)
         expr_str = str(expr_subst)
